@@ -269,9 +269,12 @@ package dag
 
 // After a restart every stored event is offered again; the ones that fail and still have retry budget
 // (retries < maxRetries) are handed to the retry loop.
-//@ func (go-stoabs.Reader).Iterate
-//@   trusted
-//@   summary once
+// The callback that collects the stored events for replay: only events with retry budget left (fatal and
+// spent ones stay on the shelf as failed events and are not offered to the receiver again).
+//@ func (*notifier).Run$1$1
+//@   prop C14
+//@   call append #1 requires [only-events-with-retry-budget-are-replayed] len(arg(1)) == 1 && same(arg(1)[0], event) && event.Retries < maxRetries
+
 //@ func (*notifier).Run
 //@   prop C14
 //@   requires !isNilIface(p.db)
@@ -279,7 +282,6 @@ package dag
 //@        || (did(call append #1) && len(arg(call append #1, 1)) == 1 && same(arg(call append #1, 1)[0], readyToRetry[$i-1]))
 //@   loop 2 invariant true
 //@   call (*notifier).notifyNow #1 requires [every-stored-event-is-offered-again] same(arg(1), readyToRetry[$i-1])
-//@   call (*notifier).notifyNow #1 requires [fatal-or-spent-events-are-not-offered-again] readyToRetry[$i-1].Retries < maxRetries
 //@   call (*notifier).retry #1 requires [failed-events-enter-the-retry-loop] same(arg(1), failedAtStartup[$i-1])
 
 // ---- C14: the notifier: an event leaves the store only when its receiver finished it ----
